@@ -1,4 +1,5 @@
 //! Rust-side engines (exhaustive enumerations with in-Rust reference models) and shared helpers.
+pub mod c03;
 pub mod c09;
 pub mod c11;
 pub mod c12;
@@ -25,6 +26,8 @@ pub fn main(args: &[String]) {
     let kv = parse_kv(&args[1.min(args.len())..]);
     let _ = &kv;
     match name {
+        "c03" => println!("{}", c03::run(&kv)),
+        "c03fam" => println!("{}", c03::run_family(&kv)),
         "c13m" => println!("{}", c13::run(&kv)),
         "c14" => println!("{}", c14::run(&kv)),
         "c15" => println!("{}", c15::run(&kv)),
